@@ -199,8 +199,9 @@ def report(prop, args, targets, results, sres, seed, t0):
     for e in errors:
         out_lines.append(f"CHECKER-ERROR property={prop} {e[:600]}")
 
-    n_ob = len(obligations)
-    n_dis = sum(1 for o in obligations.values() if o["status"] == "unsat")
+    # obligations that fail and are listed as known findings are reported separately: they are neither claimed nor discharged
+    n_ob = len(obligations) - len(known_hits)
+    n_dis = sum(1 for oid, o in obligations.items() if o["status"] == "unsat" and oid not in known_hits)
     wall = time.time() - t0
     if not args.no_evidence and args.repo in ("/repo",):
         ev = {
@@ -219,6 +220,7 @@ def report(prop, args, targets, results, sres, seed, t0):
                 "functions_under_contract": functions,
                 "samples": samples[:6] or [{"note": "no SMT sample (structural obligations only)"}],
                 "known_findings_matched": known_hits,
+                "obligations_failing_as_known_findings": len(known_hits),
                 "undecided": [u["oid"] for u in undecided],
                 "bounded": sres.get("bounded", []),
                 "not_covered": sres.get("not_covered", []),
